@@ -983,6 +983,13 @@ func nestedStore(arr string, idx []string, v string) string {
 
 func (vc *VC) builtin(ins *ssa.Call, b *ssa.Builtin) {
 	args := ins.Call.Args
+	if vc.fc != nil {
+		for _, c := range vc.fc.Sites {
+			if c.Kind == "site-ghost" && c.Site == b.Name() {
+				vc.bindingFailure(c, "ghost assignments are not applied at calls of the builtin "+b.Name()+" (use a requires clause, or a real call site)")
+			}
+		}
+	}
 	switch b.Name() {
 	case "len":
 		if _, isMap := args[0].Type().Underlying().(*types.Map); isMap {
@@ -1082,6 +1089,15 @@ func (vc *VC) appendBuiltin(ins *ssa.Call) {
 		tIsString = true
 	} else {
 		tl = fmt.Sprintf("(sl_len %s)", t)
+	}
+	// frame: when its first argument has spare capacity, append writes the new elements into THAT backing array
+	// (whoever else holds a slice of it sees them). A function with a frame may do so only if the array is its own
+	// (allocated in this call) or the frame covers the elements; otherwise the slice must be full (or nil).
+	if vc.fc != nil && vc.fc.HasMod && !vc.fc.Sweep && !vc.fc.TrustedFrame {
+		if _, isStruct := structOf(et); !isStruct && !vc.modAllows(vc.fc, vc.elemKey(et)) {
+			goal := fmt.Sprintf("(or (= %s 0) (> (sl_arr %s) %s) (= (sl_len %s) (sl_cap %s)))", s, s, vc.entryAlloc, s, s)
+			vc.oblige("frame", "append-in-place", goal, vc.fc.allTags(), ins.Pos(), nil)
+		}
 	}
 	ak := vc.allocKey()
 	oldA := vc.st.get(ak)
